@@ -4,6 +4,6 @@ From Synnax Require Import Generated.Consts_C14 Freighter.Stream Monitors.Mon_C1
 Import ListNotations.
 
 Example C14_nonvacuous :
-  accepts 0 0 [CSend 1 ROk; CRecv (RVal 7); CRecv (RErr 1 0 []); CRecv (RErr 1 0 [])]
-              [HRecv (RVal 1); HSend 7 ROk; HRet None] = true.
+  accepts 0%N 0%N [CSend 1%N ROk; CRecv (RVal 7%N); CRecv (RErr 1%N 0%N []); CRecv (RErr 1%N 0%N [])]
+              [HRecv (RVal 1%N); HSend 7%N ROk; HRet None] = true.
 Proof. vm_compute. reflexivity. Qed.
